@@ -275,3 +275,133 @@ func verifC04Gap() {
 	vObserve("blocks", int64(len(blocks)))
 	vWitness("c04gap-end")
 }
+
+// c04MixWant is the integer reference for one mixed feedback sample: 4*mix = 4*fb + num*err
+// for the fraction num/4, rounded half away from zero, saturated at 0 and 65535.
+func c04MixWant(lastFb, num, e int) int {
+	m4 := 4*lastFb + num*e
+	if m4 >= 4*65535 {
+		return 65535
+	} else if m4 < 0 {
+		return 0
+	}
+	return (m4 + 2) / 4
+}
+
+// fractions are multiples of 1/4 (exact in binary floating point), given as numerator/4
+var c04MixNums = []int{0, 2, -2, 8, -12, 1, 400}
+
+// verifC04Mix: reads of whole frames through the real reader, getNextBlock and
+// distributeData, with the mix fraction of the feedback channels set (through the real
+// ConfigureMixFraction, served between blocks) before the first block and changed before
+// each later one (every pair/triple of fractions from the table, so also back to zero).
+// Frame contents are concrete (flag bits set, negative errors, values that saturate) so
+// that the floating-point arithmetic is evaluated exactly as the hardware does; the
+// arithmetic itself for all values is verifC04MixKernel.
+func verifC04Mix() {
+	ncols, nrows := 1, 2
+	nblocks := vParam("blocks", 3)
+	nframes := 3 * nblocks
+	frames := make([]c04Frame, nframes)
+	var data []byte
+	errs := []uint16{5, 0xfffb, 300, 0x8000, 0x7fff, 1, 0xffff, 163, 0xff00, 7, 0xfff0, 9}
+	fbs := []uint16{1000, 65532, 0, 4, 60000, 32768, 12, 65000, 8, 400, 16, 50000}
+	for f := 0; f < nframes; f++ {
+		fr := c04Frame{ext: make([]bool, nrows)}
+		for r := 0; r < nrows; r++ {
+			e := errs[(2*f+r)%len(errs)]
+			v := fbs[(2*f+r)%len(fbs)]&^3 | 2 // external-trigger flag set in every word
+			if r == 0 {
+				v |= 1
+			}
+			fr.err = append(fr.err, []uint16{e})
+			fr.fb = append(fr.fb, []uint16{v})
+			data = append(data, byte(e), byte(e>>8), byte(v), byte(v>>8))
+		}
+		frames[f] = fr
+	}
+	fs := 4 * ncols * nrows
+	card := &c04Card{data: data}
+	for b := 1; b <= nblocks+1; b++ {
+		end := 3 * fs * b
+		if end > len(data) {
+			end = len(data)
+		}
+		card.ends = append(card.ends, end)
+		card.times = append(card.times, int64(1000000*b))
+	}
+	ls := c04Source(card, ncols, nrows)
+	ls.mixRequests = make(chan *MixFractionObject, 10)
+	ls.currentMix = make(chan []float64, 10)
+	ls.nextBlock = make(chan *dataBlock)
+	ls.launchLanceroReader()
+	ks := make([]int, nblocks)
+	fbChans := []int{1, 3}
+	var blocks []*dataBlock
+	for b := 0; b < nblocks; b++ {
+		ks[b] = vRange("mix"+string(rune('1'+b)), 0, len(c04MixNums)-1)
+		ch := ls.getNextBlock()
+		fr := float64(c04MixNums[ks[b]]) / 4
+		cur, err := ls.ConfigureMixFraction(&MixFractionObject{ChannelIndices: fbChans, MixFractions: []float64{fr, fr}})
+		vCheck(err == nil && len(cur) == 4, "mix request answered with the mix of every channel")
+		if err == nil && len(cur) == 4 {
+			vCheck(cur[1] == fr && cur[3] == fr && cur[0] == 0 && cur[2] == 0, "the reply reports the new mix of the feedback channels")
+		}
+		vAdvance(70)
+		blk := <-ch
+		vCheck(blk != nil && blk.err == nil, "a block follows the mix change")
+		if blk == nil {
+			return
+		}
+		blocks = append(blocks, blk)
+	}
+	closeIfOpen(ls.abortSelf)
+	f := 0
+	lastFb := make([]int, nrows)
+	for b, blk := range blocks {
+		num := c04MixNums[ks[b]]
+		n := len(blk.segments[0].rawData)
+		vCheck(n == 3, "each read of three frames yields a block of three samples")
+		for j := 0; j < n && f < nframes; j, f = j+1, f+1 {
+			for r := 0; r < nrows; r++ {
+				e := int(int16(frames[f].err[r][0]))
+				got := int(blk.segments[2*r+1].rawData[j])
+				vCheck(got == c04MixWant(lastFb[r], num, e), "feedback = retarded feedback (flags cleared) + fraction x signed error, rounded, saturated at 0 and 65535")
+				vCheck(blk.segments[2*r].rawData[j] == RawType(frames[f].err[r][0]), "the error stream is unchanged by the mix")
+				lastFb[r] = int(frames[f].fb[r][0] &^ 3)
+			}
+		}
+	}
+	vObserve("k1", int64(ks[0]))
+	vWitness("c04mix-end")
+}
+
+// verifC04MixKernel: one step of the mixer from an arbitrary state: any previous feedback
+// word, any feedback and error word, any fraction from the table. Output and new state
+// against the integer reference (idealised real arithmetic; exact for these dyadic fractions).
+func verifC04MixKernel() {
+	k := vRange("mix", 0, len(c04MixNums)-1)
+	m := &Mix{errorScale: float64(c04MixNums[k]) / 4, lastFb: RawType(vSymU16("lastfb"))}
+	prev := int(m.lastFb)
+	fb, e := vSymU16("fb"), vSymU16("err")
+	fbs, errs := []RawType{RawType(fb)}, []RawType{RawType(e)}
+	m.MixRetardFb(&fbs, &errs)
+	// the specification in real arithmetic: x = fb + fraction*err; out = 65535 if x >= 65535,
+	// 0 if x < 0, else the integer nearest to x (ties upward)
+	x := float64(int16(e))*(float64(c04MixNums[k])/4) + float64(prev)
+	got := float64(fbs[0])
+	if x >= 65535 {
+		vCheck(got == 65535, "mixed sample saturates at 65535")
+	} else if x < 0 {
+		vCheck(got == 0, "mixed sample saturates at 0")
+	} else {
+		vCheck(got <= x+0.5 && x+0.5 < got+1, "mixed sample = previous feedback + fraction x signed error, rounded to nearest (ties up)")
+	}
+	if !vSymbolic() {
+		vCheck(int(fbs[0]) == c04MixWant(prev, c04MixNums[k], int(int16(e))), "mixed sample agrees with the integer reference")
+	}
+	vCheck(m.lastFb == RawType(fb&^3), "the mixer remembers this feedback word with its flag bits cleared")
+	vCheck(errs[0] == RawType(e), "the error word is untouched")
+	vObserve("k", int64(k))
+	vWitness("c04mixkernel-end")
+}
